@@ -31,6 +31,86 @@ use crate::proglevel::*;
 
 pub const N: usize = 3;
 
+pub fn canary_path() -> String {
+    let root = std::env::var("VERIF_ROOT").unwrap_or_else(|_| "/verif".into());
+    let _ = std::fs::create_dir_all(format!("{root}/work/sim"));
+    format!("{root}/work/sim/c40-current-case.json")
+}
+
+/// C40 runs under a supervising parent process: the actual check is the child (`--inner 1`).
+/// If the child is killed by an abort while a raft case is in flight, the parent reports that
+/// case as a violation (staged protocol code panicked: in particular raft_step's guard against
+/// truncating a committed entry); any other abnormal exit stays inconclusive.
+pub fn supervise(args: vcommon::Args) -> ! {
+    use std::io::{BufRead, BufReader, Write};
+    let canary = canary_path();
+    let _ = std::fs::remove_file(&canary);
+    let exe = std::env::current_exe().expect("current_exe");
+    let mut child = std::process::Command::new(exe)
+        .args(std::env::args().skip(1))
+        .args(["--inner", "1"])
+        .stdin(std::process::Stdio::null())
+        .stderr(std::process::Stdio::piped())
+        .spawn()
+        .expect("spawn inner C40 process");
+    let stderr = child.stderr.take().unwrap();
+    let reader = std::thread::spawn(move || {
+        let mut tail: std::collections::VecDeque<String> = std::collections::VecDeque::new();
+        let mut err = std::io::stderr();
+        for line in BufReader::new(stderr).lines().map_while(Result::ok) {
+            let _ = writeln!(err, "{line}");
+            if tail.len() >= 200 {
+                tail.pop_front();
+            }
+            tail.push_back(line);
+        }
+        tail
+    });
+    let status = child.wait().expect("wait for inner C40 process");
+    let tail = reader.join().unwrap_or_default();
+    if let Some(code) = status.code() {
+        if code != 134 {
+            std::process::exit(code);
+        }
+    }
+    // aborted / killed by a signal
+    let case = std::fs::read_to_string(&canary)
+        .ok()
+        .and_then(|t| serde_json::from_str::<serde_json::Value>(&t).ok());
+    let Some(case) = case else {
+        println!("HARNESS-ABORT property=C40 inner process ended with {status:?} outside a raft case (inconclusive)");
+        std::process::exit(2);
+    };
+    let lines: Vec<&String> = tail.iter().collect();
+    let mut msg = String::new();
+    for (i, l) in lines.iter().enumerate() {
+        if l.contains("panicked at") {
+            msg = format!("{} {}", l.trim(), lines.get(i + 1).map(|s| s.trim()).unwrap_or(""));
+        }
+    }
+    if msg.is_empty() {
+        msg = lines.iter().rev().take(3).map(|s| s.as_str()).collect::<Vec<_>>().join(" | ");
+    }
+    let sig = if msg.contains("truncate committed") || msg.contains("protocol violation") {
+        "raft:truncation-guard-fired".to_string()
+    } else {
+        format!("raft:staged-code-aborted-the-simulation:{}", crate::util::squash(&msg))
+    };
+    let replay = args.replay.is_some();
+    let mut ctx = Ctx::new(args);
+    ctx.rule = "supervisor record: the inner check process aborted while running the recorded raft case".into();
+    ctx.report(
+        "raft-tapes",
+        &Fail::new(sig, format!("the simulation process aborted while running this case: {msg}")),
+        case,
+    );
+    if replay {
+        std::process::exit(if ctx.violations() > 0 { 1 } else { 0 });
+    }
+    ctx.floor = 0;
+    ctx.finish()
+}
+
 #[derive(Clone, Copy, Debug, PartialEq, Eq, Serialize, Deserialize)]
 pub enum Ev {
     Election(u8),
@@ -384,7 +464,14 @@ pub fn run(ctx: &mut Ctx) {
     let (rc, rp) = &raft;
     ctx.check("raft-tapes", tier.pick(4000, 80000), raft_strategy(), |c: &RaftCase, obs: &mut Obs| {
         obs.class("raft_3");
-        let committed = match run_raft(rc, rp, c) {
+        // a panic inside staged code (e.g. raft_step's truncation guard) unwinds out of the
+        // simulator dylib as a foreign exception and aborts this process; the supervising parent
+        // (see `supervise`) reads this file to attribute the abort to the case
+        let canary = canary_path();
+        let _ = std::fs::write(&canary, serde_json::to_string(c).unwrap_or_default());
+        let run = run_raft(rc, rp, c);
+        let _ = std::fs::remove_file(&canary);
+        let committed = match run {
             Ok(c) => c,
             Err(p) if p.msg.contains("protocol violation") => {
                 return Err(Fail::new(
